@@ -94,6 +94,28 @@ CLAIMED = {
              "are decided by correspondence (model computes p(z) in coefficient form; points 0,1,254..257,2^64,r-1,...).",
         note="Rejection of wrong results under Fiat-Shamir needs hash behaviour; differential only.",
         tech="Coq proof (round invariant, induction on k; AAC rewriting for abelian-group regrouping) + differential correspondence", ref="DESIGN.md 6.4"),
+    "C05": dict(
+        text="Theorems (abstract module, integers acting through a ring morphism; all inputs): the window recoding of "
+             "PrecompPoint.ScalarMul (window value + carry, skip on 0, negate above half) for every window width dividing 256 "
+             "and every canonical scalar leaves no carry, represents the scalar, and every digit indexes inside the 2^(w-1)-"
+             "entry table; the table construction (running curr += base, base <- 2^w base) yields entry (j+1) 2^(wk) P; "
+             "ScalarMul adds exactly s*P; MSMPrecomp.MSM (16-bit windows for i<5, 8-bit otherwise, zeros skipped) = sum_i s_i "
+             "P_i for every vector length; Commit is additive and homogeneous. Correspondence: Go Commit vs the spec sum AND vs "
+             "the extracted algorithm-level table model (every position x window x boundary digits, carry chains, lengths 0..256, "
+             "linearity instances evaluated on the Go side).",
+        note="Extended-coordinate addition formulas are proved in C08; the parallel path of MSMPrecomp is not separately modelled.",
+        tech="Coq proof (digit-sum induction with carry, bounds by nia/lia, group-level induction with AAC) + differential correspondence at spec and algorithm level", ref="DESIGN.md 6.5"),
+    "C09": dict(
+        text="Theorems (abstract module; every window c>=2, every list): signed-window recoding of every canonical scalar "
+             "(value, digit range, no final carry since scalars < 2^253); bucket accumulation + running-sum reduction = "
+             "sum_i d_i P_i for all signed digits within the bucket count (0 skipped, negatives subtract); c doublings per "
+             "chunk = Horner in base 2^c; recombination of all chunk totals into one MSM with digits sum_j 2^(cj) d_ij; "
+             "additivity over any split of the point list. PARTIAL: limb-level selectors / packed digit encoding of "
+             "partitionScalars, the cost-model choice of c and splits, and the Montgomery flag are tied by correspondence "
+             "only (MultiExp/MultiScalar for sizes 0..4096 x task counts, each implemented c with and without first-chunk "
+             "split and partitionScalars' packed limbs through hooks, watchdog for termination).",
+        note="Bit-level extraction of windows from limbs is compared, not proved.",
+        tech="Coq proof (induction over buckets/chunks, AAC regrouping) + differential correspondence incl. per-window hooks", ref="DESIGN.md 6.9"),
     "C06": dict(
         text="Theorems for every byte string: the compressed untrusted decoder accepts iff the exact decidable predicate "
              "accepts32 holds (length 32, value < p, computeY finds a root, Legendre(1-a x^2)=1), is total, and each failing "
